@@ -414,10 +414,23 @@ Theorem C07_bad_end_refused :
 Proof. exact bad_end_refused. Qed.
 
 
-(* a reversed range.  NOTE (finding): the code compares `end < start` on (block.index, index) pairs with
-   end = position AFTER del_end, so for del_end = the token just before ref the outcome depends on the block
-   layout (refused when they lie in different blocks, treated as an insertion before ref when in the same
-   block); del_end strictly earlier than that is always refused: *)
+(* a reversed range.  _splice compares `end < start` on (block.index, index) pairs with end = position AFTER
+   del_end, so for del_end = the token just before ref its answer depended on the block layout (a finding,
+   repaired in /repo: splice() now compares del_end's own position with start first; Store.splice models that
+   statement, and the exhaustive small-scope correspondence exercises every (ref, del_end) pair).
+   C07_reversed_range_refused_all covers every del_end before ref; the older, weaker statement is kept. *)
+
+Theorem C07_reversed_range_refused_all :
+  forall (LF : Z) (s : store) (tokens : list positive) (r e : positive) (p kd : nat),
+  Inv s ->
+  nth_error (abs s) p = Some r ->
+  nth_error (abs s) kd = Some e ->
+  (kd < p)%nat -> splice LF s tokens (Some r) (Some e) = (s, Err ValueError).
+Proof. exact splice_reversed_refused_all. Qed.
+
+Example C07_reversed_range_all_nonvacuous : Inv ex_s /\ nth_error (abs ex_s) 2 = Some 3%positive /\ nth_error (abs ex_s) 1 = Some 2%positive.
+Proof. split; [exact (proj1 ex_inv)|]. rewrite (proj2 ex_inv). split; reflexivity. Qed.
+
 
 Theorem C07_reversed_range_refused :
   forall (LF : Z) (s : store) (tokens : list positive) (r e : positive) (p kd : nat),
